@@ -335,6 +335,29 @@ def check_value_state(ctx, tu):
 
 
 def check_queue_ctors(ctx, tu):
+    # assignment and swap act on a *live* queue: guard objects (a running processing call, DisableQueueNotify) may refer to it and will
+    # subtract their own one later, so these operations must leave the guard counters alone (resetting them drives them negative:
+    # the queue then never reports empty again, or never notifies again)
+    from ..effects import writes as _writes
+    for f in tu.fns:
+        if f.cls in ('EventQueueBase', 'HeterEventQueueBase') and f.kind in ('method', 'operator') and f.name in ('operator=', 'swap'):
+            touched = []
+            seen = set()
+            work = [f]
+            while work:
+                g = work.pop()
+                if g.id in seen:
+                    continue
+                seen.add(g.id)
+                for w in _writes(g):
+                    if last_field(w['path']) in ('queueEmptyCounter', 'queueNotifyCounter') and not (w['how'].startswith('call:') and w['how'][5:].split('::')[-1] == 'load'):
+                        touched.append('%s %s at %s' % (w['how'], pstr(w['path']), g.nloc(w['node'])))
+                for n in g.calls():
+                    for h in g.callee_fns(n):
+                        if h.cls == f.cls and h.kind in ('method', 'operator') and h.name not in ('operator=', 'swap'):
+                            work.append(h)
+            ctx.ob('C10.Q', f, '%s of a queue leaves the guard counters to their guards' % f.name, not touched,
+                   detail='; '.join(touched[:3]), key_detail='assignment writes counters')
     for f in tu.fns:
         if f.cls in ('EventQueueBase', 'HeterEventQueueBase') and f.kind == 'ctor' and f.d.get('ctor') in ('copy', 'move'):
             inits = {i.get('member'): i for i in f.d.get('inits', []) if i.get('kind') == 'member'}
